@@ -761,6 +761,12 @@ Proof.
   apply post_ret. unfold wfs_number. cbn [n_value n_unit n_base]. rewrite Hv, Hu, Hb. reflexivity.
 Qed.
 
+Lemma post_ident : post (fun s => identb s = true) (de_ident c).
+Proof.
+  unfold de_ident. apply post_bind_any. intros s. rewrite Hval. cbn [andb].
+  destruct (identb s) eqn:E; cbn [negb]; [apply post_ret; exact E | apply post_fail].
+Qed.
+
 Lemma post_opt_scope : forall (flag : M bool) (sc : M scope),
   post (fun s => wfs_scope s = true) sc -> post (fun o => wfs_oscope o = true) (opt_scope flag sc).
 Proof.
@@ -781,9 +787,9 @@ Proof.
   - apply post_bind_any. intros s. destruct (mem s (c_from c)); [apply post_ret; reflexivity | apply post_fail].
   - apply post_bind_any. intros x. apply post_ret. reflexivity.
   - eapply post_bind; [apply post_base|]. intros b Hb. apply post_ret. exact Hb.
-  - apply post_bind_any. intros p. eapply post_bind; [apply He|]. intros e H1.
+  - eapply post_bind; [apply post_ident|]. intros p H0. eapply post_bind; [apply He|]. intros e H1.
     eapply post_bind; [apply post_opt_scope, Hs|]. intros sc H2. apply post_ret.
-    cbn [wfs_value]. rewrite H1, H2. reflexivity.
+    cbn [wfs_value]. rewrite H0, H1, H2. reflexivity.
   - apply post_bind_any. intros n. apply post_bind_any. intros _.
     eapply post_bind; [apply Hi|]. intros it H1. apply post_ret. exact H1.
   - apply post_bind_any. intros s. apply post_ret. reflexivity.
@@ -800,20 +806,21 @@ Proof.
   repeat match goal with |- post _ (if ?b then _ else _) => destruct b end; try apply post_fail;
   repeat first
    [ eapply post_bind; [apply He|]; intros ? ?
+   | eapply post_bind; [apply post_ident|]; intros ? ?
    | eapply post_bind; [apply Hv|]; intros ? ?
    | apply post_bind_any; intro
    | apply post_ret; cbv beta in *; cbn [wfs_expr];
      repeat match goal with H : _ = true |- _ => rewrite H; clear H end; reflexivity ].
 Qed.
-Lemma post_scope_body : forall re rs id,
+Lemma post_scope_body : forall re rs id, identb id = true ->
   post (fun e => wfs_expr e = true) re -> post (fun s => wfs_scope s = true) rs ->
   post (fun s => wfs_scope s = true) (de_scope_body c re rs id).
 Proof.
-  intros re rs id He Hs. unfold de_scope_body.
+  intros re rs id H0 He Hs. unfold de_scope_body.
   eapply post_bind; [apply He|]. intros e H1.
   eapply post_bind; [apply post_opt_scope, Hs|]. intros sc H2.
   eapply post_bind; [apply post_opt_scope, Hs|]. intros inner H3.
-  apply post_ret. cbn [wfs_scope]. rewrite H1, H2, H3. reflexivity.
+  apply post_ret. cbn [wfs_scope]. rewrite H0, H1, H2, H3. reflexivity.
 Qed.
 Lemma post_items_body : forall rv ri k,
   post (fun v => wfs_value v = true) rv -> post (fun it => wfs_items it = true) ri ->
@@ -835,7 +842,7 @@ Proof.
   - repeat split; try intros n; rewrite ?de_value_S, ?de_expr_S, ?de_scope_S, ?de_items_S.
     + apply post_bind_any. intros. apply post_value_body; auto.
     + apply post_bind_any. intros. apply post_expr_body; auto.
-    + apply post_bind_any. intros. apply post_scope_body; auto.
+    + eapply post_bind; [apply post_ident|]. intros id Hid. apply post_scope_body; auto.
     + destruct (n =? 0); [apply post_ret; reflexivity|]. apply post_bind_any. intros. apply post_items_body; auto.
 Qed.
 
